@@ -6,7 +6,7 @@ Import ListNotations.
 Local Open Scope N_scope.
 
 Section Put.
-Context {hstate : Type}.
+Context {hstate : Type} {CP : cparams} {NR : cplain CP}.
 Implicit Types c : cconn hstate.
 
 Lemma get_put_same c x x' : cl_ctx_get c (ct_tag x') = Some x -> cl_ctx_get (cl_ctx_put c x') (ct_tag x') = Some x'.
@@ -66,7 +66,7 @@ Qed.
 End Put.
 
 Section Events.
-Context {hstate : Type}.
+Context {hstate : Type} {CP : cparams} {NR : cplain CP}.
 Implicit Types c : cconn hstate.
 Variable cfg : cl_config.
 
@@ -97,7 +97,7 @@ Proof.
   cbn [ct_lckStuck x1 ctu_writing]. rewrite LK. cbn [ct_sid x1 ctu_writing].
   destruct (ct_sid x =? 0) eqn:Z; [|apply K1; right; lia].
   set (x2 := cl_ctx_resolve (ctu_done x1 true) (cl_close_err c)).
-  pose proof (cev_resolve (ctu_done x1 true) (cl_close_err c)) as V. fold x2 in V.
+  pose proof (cev_resolve (CP:=cp_any) (ctu_done x1 true) (cl_close_err c) Logic.I) as V. fold x2 in V.
   assert (G2 : cl_ctx_get c (ct_tag x2) = Some x) by (rewrite (cev_tag _ _ V); exact G1).
   assert (A2 : answered x2 = true) by (apply answered_resolve'; cbn; exact R1).
   split.
@@ -107,7 +107,7 @@ Proof.
     + rewrite (cev_lckStuck _ _ V). exact LK.
     + rewrite (cev_resolved _ _ V), (cev_returned _ _ V). exact R1.
     + rewrite (cev_returned _ _ V), (cev_done _ _ V). cbn. intro R. split; [|reflexivity].
-      destruct (cev_err _ _ V) as [F|[_ F]]; [rewrite F; cbn; apply (R2 R) | cbn in F; congruence].
+      destruct (cev_err _ _ V) as [F|(_ & F & _)]; [rewrite F; cbn; apply (R2 R) | cbn in F; congruence].
   - apply an_ok_put with x; auto.
 Qed.
 
@@ -118,7 +118,7 @@ Proof.
   destruct (ct_armed x && negb (ct_fired x)); [|split; assumption].
   destruct (cl_ctxs_get_In _ _ _ G) as [_ T]. pose proof (s_ret _ S _ _ G) as [R1 R2]. pose proof (proj1 (s_nostuck _ S) _ _ G) as LK.
   set (x2 := cl_ctx_resolve (ctu_fired x true) CETimeout).
-  pose proof (cev_resolve (ctu_fired x true) CETimeout) as V. fold x2 in V.
+  pose proof (cev_resolve (CP:=cp_any) (ctu_fired x true) CETimeout Logic.I) as V. fold x2 in V.
   assert (G2 : cl_ctx_get c (ct_tag x2) = Some x) by (rewrite (cev_tag _ _ V); cbn; rewrite T; exact G).
   assert (A2 : answered x2 = true) by (apply answered_resolve'; cbn; exact R1).
   split.
@@ -128,7 +128,7 @@ Proof.
     + rewrite (cev_lckStuck _ _ V). exact LK.
     + rewrite (cev_resolved _ _ V), (cev_returned _ _ V). exact R1.
     + rewrite (cev_returned _ _ V), (cev_done _ _ V). cbn. intro R. split; [|apply (R2 R)].
-      destruct (cev_err _ _ V) as [F|[_ F]]; [rewrite F; cbn; apply (R2 R) | cbn in F; congruence].
+      destruct (cev_err _ _ V) as [F|(_ & F & _)]; [rewrite F; cbn; apply (R2 R) | cbn in F; congruence].
   - apply an_ok_put with x; auto.
 Qed.
 
@@ -216,7 +216,7 @@ Proof.
 Qed.
 
 Section Admit.
-Context {hstate : Type}.
+Context {hstate : Type} {CP : cparams} {NR : cplain CP}.
 Implicit Types c : cconn hstate.
 
 (* roundTripOnce hands a new Ctx to the connection *)
@@ -227,10 +227,11 @@ Lemma inv_add c c' y : inv c -> cl_ctx_get c (ct_tag y) = None ->
   cc_reqQueued c' = cc_reqQueued c -> cc_nextID c' = cc_nextID c -> cc_wl_done c' = cc_wl_done c ->
   cc_rl_done c' = cc_rl_done c -> cc_closed c' = cc_closed c -> cc_rl_stuck c' = cc_rl_stuck c ->
   cc_wl_stuck c' = cc_wl_stuck c -> cc_outQ c' = cc_outQ c -> cc_pending c' = cc_pending c ->
+  cc_hdrErr c' = cc_hdrErr c ->
   ct_sid y = 0 -> ct_conn y = false -> ct_lckStuck y = false -> ct_resolved y = false -> ct_returned y = false ->
   ct_done y = false -> ct_fired y = false -> inv c'.
 Proof.
-  intros [S A] GN L TG IQ RQ NX WD RD CL RS WS OQ PD Hs Hc Hl Hr Hret Hd Hf.
+  intros [S A] GN L TG IQ RQ NX WD RD CL RS WS OQ PD HE Hs Hc Hl Hr Hret Hd Hf.
   assert (NT : ~ In (ct_tag y) (map ct_tag (cc_ctxs c))) by (apply cl_ctxs_get_None_tags; exact GN).
   assert (OLD : forall t x, cl_ctx_get c t = Some x -> cl_ctx_get c' t = Some x).
   { intros t x G. rewrite L. destruct (t =? ct_tag y) eqn:E; [|exact G]. apply N.eqb_eq in E. subst t. congruence. }
@@ -258,6 +259,7 @@ Proof.
     + rewrite WD, CL, RQ. apply S.
     + rewrite RD, CL. apply S.
     + rewrite OQ. apply S.
+    + rewrite HE. apply S.
     + rewrite PD, NX, RQ. apply S.
   - assert (HB : forall t, held c t -> held c' t).
     { intros t [H|H]; [left | right; rewrite RQ; exact H]. destruct IQ as [[Q _]|[Q _]]; rewrite Q; [exact H | apply in_app_iff; auto]. }
@@ -276,7 +278,7 @@ Qed.
 End Admit.
 
 Section Submit.
-Context {hstate : Type}.
+Context {hstate : Type} {CP : cparams} {NR : cplain CP}.
 Implicit Types c : cconn hstate.
 Variable cfg : cl_config.
 
@@ -293,7 +295,7 @@ Proof.
   - (* case <-c.done *)
     set (y := cl_ctx_resolve new (cl_close_err c1)).
     assert (Ty : ct_tag y = tag) by (unfold y; rewrite ct_tag_cl_ctx_resolve; reflexivity).
-    pose proof (cev_resolve new (cl_close_err c1)) as V. fold y in V.
+    pose proof (cev_resolve (CP:=cp_any) new (cl_close_err c1) Logic.I) as V. fold y in V.
     apply (inv_add c (cl_resolve c1 tag (cl_close_err c1)) y I); try (rewrite Ty; exact GN).
     + intro t. rewrite cl_ctx_get_resolve, G1, Ty. destruct (t =? tag); reflexivity.
     + rewrite tags_cl_resolve. unfold c1. cbn [cc_ctxs ccu_ctxs]. rewrite map_app, Ty. reflexivity.
@@ -307,6 +309,7 @@ Proof.
     + rewrite cc_wl_stuck_cl_resolve; reflexivity.
     + rewrite cc_outQ_cl_resolve; reflexivity.
     + rewrite cc_pending_cl_resolve; reflexivity.
+    + rewrite cc_hdrErr_cl_resolve; reflexivity.
     + rewrite (cev_sid _ _ V). reflexivity.
     + rewrite (cev_conn _ _ V). reflexivity.
     + rewrite (cev_lckStuck _ _ V). reflexivity.
@@ -330,12 +333,13 @@ Proof.
     + rewrite cc_wl_stuck_cl_ctx_upd; reflexivity.
     + rewrite cc_outQ_cl_ctx_upd; reflexivity.
     + rewrite cc_pending_cl_ctx_upd; reflexivity.
+    + rewrite cc_hdrErr_cl_ctx_upd; reflexivity.
 Qed.
 
 End Submit.
 
 Section WLIn.
-Context {hstate : Type}.
+Context {hstate : Type} {CP : cparams} {NR : cplain CP}.
 Implicit Types c : cconn hstate.
 
 (* writeRequest takes a Ctx off the queue and gives it a stream: conn.Store, streamID, queueReq *)
@@ -346,10 +350,11 @@ Lemma inv_admit c c' x tag q l : inv c -> cc_inQ c = tag :: q -> cl_ctx_get c ta
   cc_reqQueued c' = cc_reqQueued c ++ [(cc_nextID c, tag)] -> cc_nextID c' = cc_nextID c + 2 ->
   cc_wl_done c' = cc_wl_done c -> cc_rl_done c' = cc_rl_done c -> cc_closed c' = cc_closed c ->
   cc_rl_stuck c' = cc_rl_stuck c -> cc_wl_stuck c' = cc_wl_stuck c -> cc_outQ c' = cc_outQ c ->
+  cc_hdrErr c' = cc_hdrErr c ->
   cc_pending c' = cc_pending c ++ l -> (forall pb, In pb l -> pb_id pb = cc_nextID c /\ pb_tag pb = tag) ->
   inv c'.
 Proof.
-  intros [St A] IQ G WD x' L TG IQ' RQ NX WD' RD CL RS WS OQ PD PL.
+  intros [St A] IQ G WD x' L TG IQ' RQ NX WD' RD CL RS WS OQ HE PD PL.
   destruct (cl_ctxs_get_In _ _ _ G) as [_ Tx].
   assert (ND : ~ In tag q /\ NoDup q). { pose proof (s_inQ_nodup _ St) as H. rewrite IQ in H. inversion H. auto. }
   destruct (s_inQ _ St tag) as (x0 & G0 & Sx & Cx); [rewrite IQ; left; reflexivity|]. rewrite G in G0. inversion G0; subst x0. clear G0.
@@ -392,6 +397,7 @@ Proof.
     + rewrite WD', WD. discriminate.
     + rewrite RD, CL. apply St.
     + rewrite OQ. apply St.
+    + rewrite HE. apply St.
     + intros pb J. rewrite PD in J. rewrite NX, RQ. apply in_app_iff in J. destruct J as [J|J].
       * destruct (s_pending _ St _ J) as [Lt U]. split; [clear - Lt; lia|]. intros t K. apply in_app_iff in K. destruct K as [K|[K|[]]]; [apply U, K|].
         inversion K as [[E1 E2]]. clear - Lt E1. lia.
@@ -414,7 +420,7 @@ Qed.
 End WLIn.
 
 Section WLIn2.
-Context {hstate : Type}.
+Context {hstate : Type} {CP : cparams} {NR : cplain CP}.
 Implicit Types c : cconn hstate.
 Variable enc_field : hstate -> bytes -> bytes -> bool -> bytes * hstate.
 Variable enc_set_max : hstate -> N -> hstate.
@@ -431,9 +437,13 @@ Proof.
 Qed.
 
 (* the dequeued Ctx is answered on the spot *)
-Lemma effo_dequeue_resolve P c tag q e : st_ok c -> cc_inQ c = tag :: q -> effo P c (cl_resolve (ccu_inQ c q) tag e).
+Lemma effo_dequeue_resolve P c tag q e : Eok 0 e -> st_ok c -> cc_inQ c = tag :: q -> effo P c (cl_resolve (ccu_inQ c q) tag e).
 Proof.
-  intros St IQ. pose proof (eff_dequeue P c tag q St IQ) as E0. split; [eapply eff_trans; [exact E0 | apply eff_resolve]|].
+  intros He St IQ. pose proof (eff_dequeue P c tag q St IQ) as E0. split.
+  { eapply eff_trans; [exact E0|]. apply eff_ctx_upd'. intros x0 G0. apply cev_resolve.
+    destruct (s_inQ _ St tag) as (x & G & Sx & _); [rewrite IQ; left; reflexivity|].
+    destruct (e_ctx _ _ _ E0 _ _ G) as (x0' & G0' & V0). rewrite G0 in G0'. inversion G0'; subst x0'.
+    rewrite (cev_sid _ _ V0), Sx. exact He. }
   intros t H N.
   assert (Ht : t = tag).
   { destruct H as [H|H].
@@ -456,49 +466,87 @@ Proof.
   subst t. exists x. split; [exact G | apply (a_done _ A _ _ G D)].
 Qed.
 
-Definition wr_ok c tag (r : cconn hstate * cl_wrres) : Prop :=
-  match snd r with
-  | CWRNil => inv (fst r)
-  | CWRErr e => (e = CENoStreams \/ e = CEWrite) /\ inv (cl_resolve (fst r) tag e)
-  | CWRStuck => False
-  end.
+(* the state right after writeRequest has given the Ctx of tag a stream (conn.Store, streamID, queueReq, pending body):
+   nothing written yet *)
+Record admitted c c6 (x : cctx) (tag : N) (q : list N) (l : list cpending) : Prop := mkAdmitted {
+  ad_inQ : cc_inQ c = tag :: q;
+  ad_get : cl_ctx_get c tag = Some x;
+  ad_done : ct_done x = false;
+  ad_sid0 : ct_sid x = 0;
+  ad_goAway : cc_goAway c = false;
+  ad_room : cc_nextID c <= cl_maxStreamID;
+  ad_ctx : forall t, cl_ctx_get c6 t = if t =? tag then Some (ctu_sid (ctu_conn x true) (cc_nextID c)) else cl_ctx_get c t;
+  ad_tags : map ct_tag (cc_ctxs c6) = map ct_tag (cc_ctxs c);
+  ad_inQ' : cc_inQ c6 = q;
+  ad_rq : cc_reqQueued c6 = cc_reqQueued c ++ [(cc_nextID c, tag)];
+  ad_next : cc_nextID c6 = cc_nextID c + 2;
+  ad_wl_done : cc_wl_done c6 = cc_wl_done c;
+  ad_rl_done : cc_rl_done c6 = cc_rl_done c;
+  ad_closed : cc_closed c6 = cc_closed c;
+  ad_rl_stuck : cc_rl_stuck c6 = cc_rl_stuck c;
+  ad_wl_stuck : cc_wl_stuck c6 = cc_wl_stuck c;
+  ad_outQ : cc_outQ c6 = cc_outQ c;
+  ad_hdrErr : cc_hdrErr c6 = cc_hdrErr c;
+  ad_hdrStream : cc_hdrStream c6 = cc_hdrStream c;
+  ad_hdrStatus : cc_hdrStatus c6 = cc_hdrStatus c;
+  ad_hdrEndStream : cc_hdrEndStream c6 = cc_hdrEndStream c;
+  ad_goAway' : cc_goAway c6 = cc_goAway c;
+  ad_closeRef : cc_closeRef c6 = cc_closeRef c;
+  ad_out : cc_out c6 = cc_out c;
+  ad_pending : cc_pending c6 = cc_pending c ++ l;
+  ad_l : forall pb, In pb l -> pb_id pb = cc_nextID c /\ pb_tag pb = tag
+}.
 
-Lemma write_request_spec c tag q : inv c -> cc_inQ c = tag :: q -> cc_wl_done c = false ->
-  wr_ok c tag (cl_write_request enc_field enc_set_max (ccu_inQ c q) tag).
+Lemma inv_admitted c c6 x tag q l : inv c -> cc_wl_done c = false -> admitted c c6 x tag q l -> inv c6.
+Proof. intros Hi WD []. eapply inv_admit; eassumption. Qed.
+
+(* case <-c.in, taken apart *)
+Lemma wl_in_cases (P : coutev -> Prop) c tag q : (forall o, benign o = true -> P o) ->
+  (cc_goAway c = false -> forall x, cl_ctx_get c tag = Some x -> ct_done x = false -> forall es blk, P (COHeaders (cc_nextID c) es blk)) ->
+  inv c -> cc_inQ c = tag :: q -> cc_wl_done c = false ->
+  ((exists x, cl_ctx_get c tag = Some x /\ ct_done x = true) /\ cl_can_open_stream c = true /\
+   effo P c (cl_wl_in enc_field enc_set_max cfg c) /\
+   eff P (ccu_inQ c q) (cl_wl_in enc_field enc_set_max cfg c)) \/
+  (cl_can_open_stream c = false /\ cl_wl_in enc_field enc_set_max cfg c = cl_resolve (ccu_inQ c q) tag CENoStreams) \/
+  (exists c6 x l, admitted c c6 x tag q l /\ effo P c6 (cl_wl_in enc_field enc_set_max cfg c)).
 Proof.
-  intros [St A] IQ WD. set (c0 := ccu_inQ c q). unfold cl_write_request, wr_ok.
+  intros Pben Phdr [St A] IQ WD. unfold cl_wl_in. rewrite IQ. set (c0 := ccu_inQ c q). unfold cl_write_request.
   destruct (cl_can_open_stream c0) eqn:CO; cbn [negb].
-  2:{ cbn [fst snd]. split; [auto|]. apply (inv_effo any_item c); [split; assumption | apply effo_dequeue_resolve; assumption]. }
+  2:{ right. left. split; [exact CO | reflexivity]. }
   destruct (s_inQ _ St tag) as (x & G & Sx & Cx); [rewrite IQ; left; reflexivity|].
   assert (G0 : cl_ctx_get c0 tag = Some x) by exact G. rewrite G0.
   rewrite (proj1 (s_nostuck _ St) _ _ G).
   destruct (ct_done x) eqn:D.
-  { cbn [fst snd]. apply (inv_effo any_item c); [split; assumption | eapply effo_dequeue_done; eassumption]. }
+  { left. split; [exists x; auto|]. pose proof (effo_dequeue_done P c tag q x St A IQ G D) as E0.
+    pose proof (effo_wl_after cfg P Pben (ccu_inQ c q) (st_ok_eff _ _ _ St (proj1 E0))) as E1.
+    split; [exact CO|]. split; [eapply effo_trans; [exact E0 | exact E1] | exact (proj1 E1)]. }
+  right. right.
   unfold cl_can_open_stream in CO. apply andb_true_iff in CO. destruct CO as [CO _]. apply andb_true_iff in CO. destruct CO as [GA NXm].
   assert (GA0 : cc_goAway c = false) by (cbn [cc_goAway c0 ccu_inQ] in GA; destruct (cc_goAway c); [discriminate | reflexivity]).
   assert (NXle : cc_nextID c <= cl_maxStreamID) by (cbn [cc_nextID c0 ccu_inQ] in NXm; clear - NXm; lia).
   cbv zeta. set (c1 := if negb (cc_encTableSize c0 =? cc_encTableSeen c0) then _ else c0).
   assert (NX1 : cc_nextID c1 = cc_nextID c) by (unfold c1; destruct (negb (cc_encTableSize c0 =? cc_encTableSeen c0)); reflexivity).
   rewrite !NX1. replace (cl_maxStreamID <? cc_nextID c) with false by (clear - NXle; lia).
-  set (id := cc_nextID c).
+  set (id := cc_nextID c) in *.
   destruct (cl_request_block enc_field (cc_enc (ccu_nextID c1 (u32 (id + 2)))) (ct_req x)) as [blk e'].
   set (x' := ctu_sid (ctu_conn x true) id).
   set (c5 := ccu_open _ _).
   replace (cc_goAway c5) with false by (unfold c5, c1; destruct (negb (cc_encTableSize c0 =? cc_encTableSeen c0)); cbn; symmetry; exact GA0).
-  set (c6 := if match cq_body (ct_req x) with CStream _ _ => true | CBuf b => negb (cl_is_nil b) end then _ else c5).
+  set (hasBody := match cq_body (ct_req x) with CStream _ _ => true | CBuf b => negb (cl_is_nil b) end).
+  set (c6 := if hasBody then _ else c5).
   assert (U32 : u32 (id + 2) = id + 2).
   { unfold u32, wrap. apply N.mod_small. unfold cl_maxStreamID in NXle. clear - NXle. unfold id. lia. }
   destruct (cl_ctxs_get_In _ _ _ G) as [_ Tx].
-  assert (I6 : inv c6).
-  { apply (inv_admit c c6 x tag q
-             (if match cq_body (ct_req x) with CStream _ _ => true | CBuf b => negb (cl_is_nil b) end
-              then [match cq_body (ct_req x) with
-                    | CStream reads size => mkCPB id tag [] (cc_streamWindow c5) (Some reads) size 0 (size =? 0)%Z
-                    | CBuf b => mkCPB id tag b (cc_streamWindow c5) None (-1) 0 false
-                    end] else [])); try assumption; try (split; assumption);
-      unfold c6, c5, c1; destruct (negb (cc_encTableSize c0 =? cc_encTableSeen c0));
+  set (l := if hasBody
+            then [match cq_body (ct_req x) with
+                  | CStream reads size => mkCPB id tag [] (cc_streamWindow c5) (Some reads) size 0 (size =? 0)%Z
+                  | CBuf b => mkCPB id tag b (cc_streamWindow c5) None (-1) 0 false
+                  end] else []).
+  assert (AD : admitted c c6 x tag q l).
+  { constructor; try assumption; unfold l, c6, c5, c1, hasBody; destruct (negb (cc_encTableSize c0 =? cc_encTableSeen c0));
       destruct (match cq_body (ct_req x) with CStream _ _ => true | CBuf b => negb (cl_is_nil b) end);
       cbn [cc_ctxs cc_inQ cc_reqQueued cc_nextID cc_wl_done cc_rl_done cc_closed cc_rl_stuck cc_wl_stuck cc_outQ cc_pending
+           cc_hdrErr cc_hdrStream cc_hdrStatus cc_hdrEndStream cc_goAway cc_closeRef cc_out
            ccu_pending ccu_open ccu_reqQueued ccu_enc ccu_nextID ccu_encTableSeen ccu_inQ c0 cl_ctx_put ccu_ctxs];
       try reflexivity; try (rewrite U32; reflexivity); try (rewrite app_nil_r; reflexivity);
       try (intro t; unfold cl_ctx_get; cbn [cc_ctxs ccu_pending ccu_open ccu_reqQueued ccu_enc ccu_nextID ccu_encTableSeen ccu_inQ cl_ctx_put ccu_ctxs c0];
@@ -506,46 +554,61 @@ Proof.
       try (rewrite cl_ctxs_put_tags; reflexivity);
       try (intros pb [<-|[]]; destruct (cq_body (ct_req x)); split; reflexivity);
       try (intros pb []). }
-  destruct I6 as [S6 A6].
+  exists c6, x, l. split; [exact AD|].
+  pose proof (inv_admitted c c6 x tag q l (conj St A) WD AD) as [S6 A6].
+  assert (EW : Eall CEWrite) by (apply Eall_nr; [reflexivity | discriminate]).
   destruct (cl_can_write c6) eqn:CW.
   - (* HEADERS written *)
     set (c7 := cl_note c6 _).
-    assert (E7 : effo any_item c6 c7) by (apply effo_note; exact I).
-    pose proof (inv_effo _ _ _ (conj S6 A6) E7) as [S7 A7].
-    destruct (match cq_body (ct_req x) with CStream _ _ => true | CBuf b => negb (cl_is_nil b) end); [|cbn [fst snd]; split; assumption].
-    destruct (effo_send_pending any_item (fun _ _ => I) (cl_send_fuel c7 id) c7 id S7) as [E8 N8].
+    assert (E7 : effo P c6 c7) by (apply effo_note, (Phdr GA0 x G D)).
+    pose proof (st_ok_eff _ _ _ S6 (proj1 E7)) as S7.
+    destruct hasBody.
+    2:{ eapply effo_trans; [exact E7 | apply effo_wl_after; [exact Pben | exact S7]]. }
+    destruct (effo_send_pending P Pben (cl_send_fuel c7 id) c7 id S7) as [E8 N8].
     destruct (cl_send_pending (cl_send_fuel c7 id) c7 id) as [c8 r]. cbn [fst snd] in *.
-    pose proof (inv_effo _ _ _ (conj S7 A7) E8) as I8.
-    destruct r; cbn [fst snd]; [exact I8 | | contradiction].
-    split; [auto|]. apply (inv_effo any_item c8 _ I8), effo_resolve.
+    pose proof (st_ok_eff _ _ _ S7 (proj1 E8)) as S8.
+    destruct r; [| | contradiction].
+    + eapply effo_trans; [exact E7|]. eapply effo_trans; [exact E8 | apply effo_wl_after; [exact Pben | exact S8]].
+    + eapply effo_trans; [exact E7|]. eapply effo_trans; [exact E8|].
+      assert (E9 : effo P c8 (cl_resolve c8 tag CEWrite)) by (apply effo_resolve, EW).
+      eapply effo_trans; [exact E9 | apply effo_wl_exit; [exact Pben | exact EW | apply (st_ok_eff _ _ _ S8 (proj1 E9))]].
   - (* the write failed *)
     set (c7 := cl_take_req_count (cl_set_last_err c6 CEWrite) id).
-    assert (E7 : eff any_item c6 c7) by (eapply eff_trans; [apply eff_set_last_err | apply eff_take_req_count]).
+    assert (E7 : eff P c6 c7) by (eapply eff_trans; [apply eff_set_last_err | apply eff_take_req_count]).
     pose proof (st_ok_eff _ _ _ S6 E7) as S7.
-    destruct (eff_delete_pending any_item (fun _ _ => I) 1 c7 id (s_nostuck _ S7)) as [E8 F8].
+    destruct (eff_delete_pending P Pben 1 c7 id (s_nostuck _ S7)) as [E8 F8].
     pose proof (cc_inQ_cl_delete_pending _ c7 1 [] id) as I8. pose proof (cc_reqQueued_cl_delete_pending _ c7 1 [] id) as Q8.
-    destruct (cl_delete_pending 1 [] c7 id) as [c8 stuck]. cbn [fst snd] in *. subst stuck. cbn [fst snd]. split; [auto|].
-    apply (inv_effo any_item c6); [split; assumption|]. split; [eapply eff_trans; [exact E7|]; eapply eff_trans; [exact E8 | apply eff_resolve]|].
-    assert (R6 : In (id, tag) (cc_reqQueued c6)).
-    { unfold c6, c5. destruct (match cq_body (ct_req x) with CStream _ _ => true | CBuf b => negb (cl_is_nil b) end);
-        cbn [cc_reqQueued ccu_pending ccu_open ccu_reqQueued]; apply in_app_iff; right; left; reflexivity. }
-    apply (obl_take_resolve any_item c6 c8 id tag (fun y => y) CEWrite S6 (eff_trans _ _ _ _ E7 E8)); auto.
-    + rewrite I8. unfold c7. rewrite cc_inQ_cl_take_req_count, cc_inQ_cl_set_last_err. reflexivity.
-    + rewrite Q8. unfold c7. rewrite cc_reqQueued_cl_take_req_count, cc_reqQueued_cl_set_last_err. reflexivity.
-    + intros t J. pose proof (cl_req_find_NoDup _ _ _ (s_rq_ids _ S6) J). pose proof (cl_req_find_NoDup _ _ _ (s_rq_ids _ S6) R6). congruence.
-Qed.
-
-Lemma inv_wl_in c : inv c -> cc_wl_done c = false -> inv (cl_wl_in enc_field enc_set_max cfg c).
-Proof.
-  intros Hi WD. unfold cl_wl_in. destruct (cc_inQ c) as [|tag q] eqn:IQ; [exact Hi|].
-  pose proof (write_request_spec c tag q Hi IQ WD) as H. unfold wr_ok in H.
-  destruct (cl_write_request enc_field enc_set_max (ccu_inQ c q) tag) as [c1 r]. cbn [fst snd] in H. destruct r as [|e|].
-  - apply (inv_effo any_item c1 _ H), effo_wl_after; [exact (fun _ _ => I) | apply H].
-  - destruct H as [[->| ->] H]; [exact H|]. apply (inv_effo any_item _ _ H), effo_wl_exit; [exact (fun _ _ => I) | apply H].
-  - contradiction.
+    destruct (cl_delete_pending 1 [] c7 id) as [c8 stuck]. cbn [fst snd] in *. subst stuck.
+    assert (E9 : effo P c6 (cl_resolve c8 tag CEWrite)).
+    { split; [eapply eff_trans; [exact E7|]; eapply eff_trans; [exact E8 | apply eff_resolve, EW]|].
+      assert (R6 : In (id, tag) (cc_reqQueued c6)) by (rewrite (ad_rq _ _ _ _ _ _ AD); apply in_app_iff; right; left; reflexivity).
+      apply (obl_take_resolve P c6 c8 id tag (fun y => y) CEWrite S6 (eff_trans _ _ _ _ E7 E8)); auto.
+      + rewrite I8. unfold c7. rewrite cc_inQ_cl_take_req_count, cc_inQ_cl_set_last_err. reflexivity.
+      + rewrite Q8. unfold c7. rewrite cc_reqQueued_cl_take_req_count, cc_reqQueued_cl_set_last_err. reflexivity.
+      + intros t J. pose proof (cl_req_find_NoDup _ _ _ (s_rq_ids _ S6) J). pose proof (cl_req_find_NoDup _ _ _ (s_rq_ids _ S6) R6). congruence. }
+    eapply effo_trans; [exact E9 | apply effo_wl_exit; [exact Pben | exact EW | apply (st_ok_eff _ _ _ S6 (proj1 E9))]].
 Qed.
 
 End WLIn2.
+
+Section WLIn3.
+Context {hstate : Type}.
+Implicit Types c : cconn hstate.
+Variable enc_field : hstate -> bytes -> bytes -> bool -> bytes * hstate.
+Variable enc_set_max : hstate -> N -> hstate.
+Variable cfg : cl_config.
+
+Lemma inv_wl_in c : inv c -> cc_wl_done c = false -> inv (cl_wl_in enc_field enc_set_max cfg c).
+Proof.
+  intros Hi WD. destruct (cc_inQ c) as [|tag q] eqn:IQ; [unfold cl_wl_in; rewrite IQ; exact Hi|].
+  destruct (wl_in_cases (CP:=cp_any) enc_field enc_set_max cfg any_item c tag q (fun _ _ => Logic.I) (fun _ _ _ _ _ _ => Logic.I) Hi IQ WD)
+    as [[_ [_ [E _]]]|[[_ ->]|(c6 & x & l & AD & E)]].
+  - apply (inv_effo _ _ _ Hi E).
+  - apply (inv_effo (CP:=cp_any) any_item c _ Hi). apply (effo_dequeue_resolve (CP:=cp_any)); [exact Logic.I | apply Hi | exact IQ].
+  - apply (inv_effo _ _ _ (inv_admitted c c6 x tag q l Hi WD AD) E).
+Qed.
+
+End WLIn3.
 
 (* ---------- every reachable state ---------- *)
 Section InvRun.
@@ -562,10 +625,10 @@ Notation step := (cl_step dec_field enc_field enc_set_max cfg).
 Notation run := (cl_run dec_field enc_field enc_set_max cfg h0 first).
 
 Lemma inv_empty c : cc_ctxs c = [] -> cc_inQ c = [] -> cc_reqQueued c = [] -> cc_pending c = [] -> cc_outQ c = [] ->
-  cc_rl_stuck c = false -> cc_wl_stuck c = false -> 0 < cc_nextID c ->
+  cc_hdrErr c = None -> cc_rl_stuck c = false -> cc_wl_stuck c = false -> 0 < cc_nextID c ->
   (cc_wl_done c = true -> cc_closed c = true) -> (cc_rl_done c = true -> cc_closed c = true) -> inv c.
 Proof.
-  intros H1 H2 H3 H4 H5 H6 H7 H8 H9 H10.
+  intros H1 H2 H3 H4 H5 HE H6 H7 H8 H9 H10.
   assert (G : forall t, cl_ctx_get c t = None) by (intro t; unfold cl_ctx_get; rewrite H1; reflexivity).
   split; constructor; try (intros t x Gx; rewrite G in Gx; discriminate); try (intros t t' x x' Gx; rewrite G in Gx; discriminate).
   - rewrite H1. constructor.
@@ -579,6 +642,7 @@ Proof.
   - auto.
   - exact H10.
   - rewrite H5. constructor.
+  - rewrite HE. intros e He. discriminate.
   - rewrite H4. intros pb [].
 Qed.
 
@@ -594,17 +658,17 @@ Proof.
   - apply inv_submit_check, Hi.
   - unfold cl_wl_live. destruct (cc_wl_done c) eqn:W; cbn [negb andb]; [exact Hi|]. destruct (negb (cc_wl_stuck c)); [|exact Hi].
     apply inv_wl_in; assumption.
-  - destruct (cl_wl_live c); [|exact Hi]. apply (inv_effo any_item c _ Hi), effo_wl_out; [exact (fun _ _ => I) | apply Hi].
-  - destruct (cl_wl_live c); [|exact Hi]. apply (inv_effo any_item c _ Hi), effo_wl_win; [exact (fun _ _ => I) | apply Hi].
-  - destruct (cl_wl_live c); [|exact Hi]. apply (inv_effo any_item c _ Hi), effo_wl_ping; [exact (fun _ _ => I) | apply Hi].
-  - destruct (cl_wl_live c); [|exact Hi]. apply (inv_effo any_item c _ Hi), effo_wl_done; [exact (fun _ _ => I) | apply Hi].
-  - destruct (cl_rl_live c); [|exact Hi]. apply (inv_effo any_item c _ Hi), effo_rl_step; [exact (fun _ _ => I) | left; exact I | apply Hi | apply Hi].
+  - destruct (cl_wl_live c); [|exact Hi]. apply (inv_effo (CP:=cp_any) any_item c _ Hi), effo_wl_out; [exact (fun _ _ => I) | apply Hi].
+  - destruct (cl_wl_live c); [|exact Hi]. apply (inv_effo (CP:=cp_any) any_item c _ Hi), effo_wl_win; [exact (fun _ _ => I) | apply Hi].
+  - destruct (cl_wl_live c); [|exact Hi]. apply (inv_effo (CP:=cp_any) any_item c _ Hi), effo_wl_ping; [exact (fun _ _ => I) | apply Hi].
+  - destruct (cl_wl_live c); [|exact Hi]. apply (inv_effo (CP:=cp_any) any_item c _ Hi), effo_wl_done; [exact (fun _ _ => I) | apply Hi].
+  - destruct (cl_rl_live c); [|exact Hi]. apply (inv_effo (CP:=cp_any) any_item c _ Hi), effo_rl_step; try (apply Hi); try (intros; exact I); intro; exact I.
   - apply inv_timeout_fire, Hi.
-  - apply inv_timeout_cancel, Hi.
-  - apply inv_receive, Hi.
-  - apply (inv_effo any_item c _ Hi), effo_close_call.
-  - apply (inv_effo any_item c _ Hi), effo_close_finish. exact (fun _ _ => I).
-  - apply (inv_effo any_item c _ Hi), effo_write_fail.
+  - apply (inv_timeout_cancel (CP:=cp_any)), Hi.
+  - apply (inv_receive (CP:=cp_any)), Hi.
+  - apply (inv_effo (CP:=cp_any) any_item c _ Hi), effo_close_call.
+  - apply (inv_effo (CP:=cp_any) any_item c _ Hi), effo_close_finish. exact (fun _ _ => I).
+  - apply (inv_effo (CP:=cp_any) any_item c _ Hi), effo_write_fail.
 Qed.
 
 Theorem inv_run evs : inv (run evs).
